@@ -1488,8 +1488,16 @@ def _d_update(ex, st, dref, args, kwargs):
         for k, v in src.items.items():
             bm.sdict_store(d, k, v)
         yield st, None
+    elif isinstance(src, SDict):
+        if isinstance(d, PDict):
+            d2 = bm.pdict_to_sdict(d, src.ksort, src.vsort)
+            d2.frozen = getattr(d, "frozen", False)
+            st.heap[dref.addr if hasattr(dref, "addr") else dref] = d2
+            d = st.deref(dref)
+        bm.sdict_update(ex, st, d, src)
+        yield st, None
     else:
-        raise U("dict.update with symbolic source (needs a loop-free model)")
+        raise U("dict.update with this kind of source")
 
 
 def _d_clear(ex, st, dref, args, kwargs):
@@ -1560,6 +1568,25 @@ def call_opaque_method(ex, st, f: BuiltinRef, args, kwargs):
 
 
 def call_opaque(ex, st, f: Opaque, args, kwargs):
+    if any(isinstance(a, GenThunk) for a in args):
+        # a generator expression handed to an abstract callable (a list / tuple factory): whatever consumes it runs its
+        # body, so the body is executed here (abstractly for collections of unknown length) - every exception and
+        # every contract obligation inside it is seen; the callee then gets the resulting collection
+        def force(i, st, acc):
+            if i == len(args):
+                yield from call_opaque(ex, st, f, acc, kwargs)
+                return
+            if isinstance(args[i], GenThunk):
+                for st1, v in comprehension_thunk(ex, st, args[i], "list"):
+                    if isinstance(v, Exc):
+                        yield st1, v
+                    else:
+                        yield from force(i + 1, st1, acc + [v])
+            else:
+                yield from force(i + 1, st, acc + [args[i]])
+
+        yield from force(0, st, [])
+        return
     spec = ex.db.opaque_method(f.kind, "__call__")
     if spec is None and f.kind == "Any":
         # calling an arbitrary value: nothing is known about the result (noted in the evidence)
